@@ -1401,7 +1401,7 @@ def filter_table(col):
 
 # symlinks: the path itself is what gets removed, whatever it points at
 PATH_STATES = ('file', 'missing', 'dir', 'link_dangling', 'link_to_file',
-               'link_to_dir')
+               'link_to_dir', 'via_link_dotdot')
 REMOVERS = ('default', 'recorder', 'recorder_noop', 'recorder_raise_catch')
 BODIES = ('returns',) + KINDS
 
@@ -1418,7 +1418,25 @@ def rpoe_case(col, case, scratch, sub='remove_path'):
     from oslo_utils import fileutils
     state, remover, body = case['state'], case['remover'], case['body']
     path = os.path.join(scratch, 'p-%s-%s-%s' % (state, remover, body))
-    if os.path.isdir(path):
+    bystander = None
+    if state == 'via_link_dotdot':
+        # <top>/current/../name where current is a symlink to a directory at
+        # another depth: the kernel resolves '..' after following the link
+        # (the file lives in <volumes>), lexical normalisation would name
+        # <top>/name - a bystander that must survive
+        root = os.path.join(scratch, 'v-%s-%s' % (remover, body))
+        shutil.rmtree(root, ignore_errors=True)
+        os.makedirs(os.path.join(root, 'volumes', 'pool'))
+        os.makedirs(os.path.join(root, 'top'))
+        os.symlink(os.path.join(root, 'volumes', 'pool'),
+                   os.path.join(root, 'top', 'current'))
+        path = os.path.join(root, 'top', 'current', '..', 'image.part')
+        bystander = os.path.join(root, 'top', 'image.part')
+        with open(bystander, 'w') as f:
+            f.write('bystander')
+        with open(path, 'w') as f:
+            f.write('x')
+    elif os.path.isdir(path):
         os.rmdir(path)
     elif os.path.lexists(path):
         os.unlink(path)
@@ -1527,6 +1545,9 @@ def rpoe_case(col, case, scratch, sub='remove_path'):
     if state in ('link_to_file', 'link_to_dir') and \
             not os.path.lexists(path + '.target'):
         bad('the target of the symlink was removed, not the path')
+    if bystander is not None and not os.path.lexists(bystander):
+        bad('another file (%r) was removed instead of the path'
+            % (bystander,))
     if not deletes and exists_after != (state != 'missing'):
         bad('path state changed by a no-op remover')
 
